@@ -311,6 +311,76 @@ def _calls_deep(fn):
     return cs
 
 
+def _snap_source(cx, e, at, depth=0):
+    """(access path, node where it was read) of the value held by expression e at node `at`.
+
+    Follows plain local definitions, tuple packing/unpacking (`saved = (a, b); x, y = saved`) and local aliases
+    of containers (`cur = self._seed_vars; cur['fwd']`).  (None, None) when not recognised.
+    """
+    if depth > 8:
+        return None, None
+    if isinstance(e, ast.Name):
+        ds = cx.rd.defs(at, e.id)
+        if len(ds) != 1:
+            return None, None
+        d = next(iter(ds))
+        if not (d.kind == 'stmt' and isinstance(d.ast, ast.Assign) and len(d.ast.targets) == 1):
+            return None, None
+        t, v = d.ast.targets[0], d.ast.value
+        if isinstance(t, ast.Name):
+            return _snap_source(cx, v, d, depth + 1)
+        if isinstance(t, ast.Tuple):
+            idx = [i for i, x in enumerate(t.elts) if isinstance(x, ast.Name) and x.id == e.id]
+            tup, tat = v, d
+            hops = 0
+            while isinstance(tup, ast.Name) and hops < 4:
+                sd = cx.single_def(tat, tup.id)
+                if sd is None:
+                    return None, None
+                tup, tat = sd
+                hops += 1
+            if len(idx) == 1 and isinstance(tup, ast.Tuple) and len(tup.elts) == len(t.elts):
+                return _snap_source(cx, tup.elts[idx[0]], tat, depth + 1)
+        return None, None
+    if isinstance(e, ast.Subscript) and isinstance(e.slice, ast.Constant):
+        bp, _ = _snap_source(cx, e.value, at, depth + 1) if isinstance(e.value, ast.Name) else (astx.path(e.value), at)
+        if isinstance(e.value, ast.Name) and bp is None and not cx.rd.defs(at, e.value.id) - {cx.g.entry}:
+            bp = e.value.id
+        return (f'{bp}[{e.slice.value!r}]', at) if bp else (None, None)
+    p = astx.path(e)
+    return (p, at) if p else (None, None)
+
+
+def _restores_inlined(cx, fn, make_src_of):
+    """_restores of cx plus calls of same-class helper methods that restore a vector on every normal path."""
+    good, odd = _restores(cx, make_src_of(cx))
+    for n in cx.g.nodes:
+        if n.kind != 'stmt' or not (isinstance(n.ast, ast.Expr) and isinstance(n.ast.value, ast.Call)):
+            continue
+        c = n.ast.value
+        hf = _callee_func(fn, c)
+        if hf is None or hf.node is fn.node:
+            continue
+        pos = [i for i, a in enumerate(c.args) if isinstance(a, ast.Name) and a.id == cx.sys]
+        hps = _params(hf)
+        if len(pos) != 1 or pos[0] + 1 >= len(hps) or c.keywords:
+            continue
+        try:
+            hcx = Ctx(hf, sys_index=pos[0] + 1)
+        except AnalysisError:
+            continue
+        if any(isinstance(w, (ast.Yield, ast.YieldFrom)) for w in astx.walk(hf.node)):
+            continue
+        hgood, hodd = _restores(hcx, make_src_of(hcx))
+        odd += [(n, n.ast, why) for _, _, why in hodd]
+        for V in VECS:
+            hv = [x for x in hgood if x[1] == V]
+            if hv and hcx.g.path([hcx.g.entry], [hcx.g.exit], avoid=[x[0] for x in hv], labels=cfgm.noexc) is None:
+                for x in hv:
+                    good.append((n, V, x[2], x[3]))
+    return good, odd
+
+
 def _real_defs(ds):
     """Reaching definitions without `name = None` placeholders."""
     return {d for d in ds if not (d.kind == 'stmt' and isinstance(d.ast, ast.Assign) and _const(d.ast.value, None))}
@@ -474,11 +544,13 @@ def fd_restore(repo, out):
                                 f'restore writes back perturbed values', key=f'restore{V}')
                         return
 
-    def src_of(e, at):
-        e2, _ = cr.resolve(e, at)
-        p = astx.path(e2)
-        return p if p and p.startswith('self.') else None
-    rest, odd = _restores(cr, src_of)
+    def make_src_of(cxx):
+        def src_of(e, at):
+            e2, _ = cxx.resolve(e, at)
+            p = astx.path(e2)
+            return p if p and p.startswith('self.') else None
+        return src_of
+    rest, odd = _restores_inlined(cr, fr, make_src_of)
     for n, st, why in odd:
         out.unsure(fr, st, why)
     runs = [n for n, c in _call_nodes(cr.g, lambda c: astx.callee_attr(c) in
@@ -596,8 +668,9 @@ def capture(repo, out):
             out.unsure(fn, st, f'`{flag}` is reassigned before the run branch')
             continue
         # undo nodes: restores (FD) and isub calls (CS)
-        rest, _ = _restores(cx, lambda e, at: astx.path(cx.resolve(e, at)[0]) if
-                            (astx.path(cx.resolve(e, at)[0]) or '').startswith('self.') else None)
+        rest, _ = _restores_inlined(cx, fn, lambda cxx: (lambda e, at: astx.path(cxx.resolve(e, at)[0]) if
+                                                          (astx.path(cxx.resolve(e, at)[0]) or '').startswith('self.')
+                                                          else None))
         undo = {V: [x[0] for x in rest if x[1] == V] for V in VECS}
         isubs = [n for n, c in _call_nodes(g, lambda c: astx.callee_attr(c) == 'isub')]
         for total, arm in arms:
@@ -1053,8 +1126,7 @@ def relevance(repo, out):
             args = [astx.arg(c, 0, 'fwd_seeds'), astx.arg(c, 1, 'rev_seeds')]
             srcs = []
             for a in args:
-                sd = cx.single_def(sn, a.id) if isinstance(a, ast.Name) else None
-                srcs.append((astx.path(sd[0]), sd[1]) if sd else (None, None))
+                srcs.append(_snap_source(cx, a, sn) if isinstance(a, ast.Name) else (None, None))
             want = ["self._seed_vars['fwd']", "self._seed_vars['rev']"]
             if [p for p, _ in srcs] == want[::-1]:
                 problem = (c, 'forward and reverse seeds are swapped when they are restored')
@@ -1079,9 +1151,8 @@ def relevance(repo, out):
             for n in acts:
                 if n in pre or not isinstance(n.ast.value, ast.Name):
                     continue
-                sd = cx.single_def(n, n.ast.value.id)
-                if sd and astx.path(sd[0]) == 'self._active' and \
-                        all(g.dominated_by(p_, [sd[1]]) is None for p_ in pre):
+                sp, sat = _snap_source(cx, n.ast.value, n)
+                if sp == 'self._active' and all(g.dominated_by(p_, [sat]) is None for p_ in pre):
                     post.append(n)
             if pre:
                 # an exception raised by the seed restore itself is not this clause's business
@@ -3539,6 +3610,10 @@ selftest(
     Mutant('stepcalc-rel-not-dispatched-with-lookup-helper', FD, '            var_local = True\n            if system._outputs._contains_abs(wrt):\n                wrt_val = system._outputs._abs_get_val(wrt)\n            elif system._inputs._contains_abs(wrt):\n                wrt_val = system._inputs._abs_get_val(wrt)\n            else:\n                var_local = False\n', '            var_local, wrt_val = _get_local_wrt_val(system, wrt)\n', 'C12.step-calc',
            also=[(FD, 'class FiniteDifference(ApproximationScheme):', 'def _get_local_wrt_val(system, wrt):\n    outputs = system._outputs\n    if outputs._contains_abs(wrt):\n        return True, outputs._abs_get_val(wrt)\n    inputs = system._inputs\n    if inputs._contains_abs(wrt):\n        return True, inputs._abs_get_val(wrt)\n    return False, None\n\n\nclass FiniteDifference(ApproximationScheme):'),
                  (FD, "elif step_calc == 'rel_avg' or step_calc == 'rel':", "elif step_calc == 'rel_avg':")]),
+    Mutant('fd-restore-helper-forgets-outputs', FD, '        system._residuals.set_val(self._starting_resids)\n\n        # save results and restore starting inputs/outputs\n        system._inputs.set_val(self._starting_ins)\n        system._outputs.set_val(self._starting_outs)\n\n        return self._results_tmp\n', '        self._restore_starting_state(system)\n\n        return self._results_tmp\n\n    def _restore_starting_state(self, system):\n        system._residuals.set_val(self._starting_resids)\n        system._inputs.set_val(self._starting_ins)\n', 'C12.fd-restore'),
+    Mutant('fd-restore-helper-swaps-snapshots', FD, '        system._residuals.set_val(self._starting_resids)\n\n        # save results and restore starting inputs/outputs\n        system._inputs.set_val(self._starting_ins)\n        system._outputs.set_val(self._starting_outs)\n\n        return self._results_tmp\n', '        self._restore_starting_state(system)\n\n        return self._results_tmp\n\n    def _restore_starting_state(self, system):\n        system._residuals.set_val(self._starting_resids)\n        system._inputs.set_val(self._starting_outs)\n        system._outputs.set_val(self._starting_ins)\n', 'C12.fd-restore'),
+    Mutant('seeds-tuple-restored-swapped', REL, "            save_fwd = self._seed_vars['fwd']\n            save_rev = self._seed_vars['rev']\n            save_active = self._active\n", "            current = self._seed_vars\n            saved = (current['fwd'], current['rev'], self._active)\n", 'C12.relevance', nth=1,
+           also=[(REL, '                self._set_seeds(save_fwd, save_rev)\n                self._active = save_active', '                old_fwd, old_rev, old_active = saved\n                self._set_seeds(old_rev, old_fwd)\n                self._active = old_active')]),
     # ---- result-buffer
     Mutant('buffer-colored-live-view', AS, 'results_array = vec.asarray(copy=True)', 'results_array = vec.asarray()', 'C12.result-buffer'),
     Mutant('buffer-uncolored-live-view', AS, 'results_array = system._outputs.asarray(copy=True) if total_or_semi',
@@ -3800,6 +3875,9 @@ selftest(
          '        if total_or_semi:\n            results_array = system._outputs.asarray(copy=True)\n        else:\n            results_array = system._residuals.asarray(copy=True)\n'),
     Twin('twin-wrt-value-lookup-helper', FD, '            var_local = True\n            if system._outputs._contains_abs(wrt):\n                wrt_val = system._outputs._abs_get_val(wrt)\n            elif system._inputs._contains_abs(wrt):\n                wrt_val = system._inputs._abs_get_val(wrt)\n            else:\n                var_local = False\n', '            var_local, wrt_val = _get_local_wrt_val(system, wrt)\n',
          also=[(FD, 'class FiniteDifference(ApproximationScheme):', 'def _get_local_wrt_val(system, wrt):\n    outputs = system._outputs\n    if outputs._contains_abs(wrt):\n        return True, outputs._abs_get_val(wrt)\n    inputs = system._inputs\n    if inputs._contains_abs(wrt):\n        return True, inputs._abs_get_val(wrt)\n    return False, None\n\n\nclass FiniteDifference(ApproximationScheme):')]),
+    Twin('twin-fd-restore-helper-method', FD, '        system._residuals.set_val(self._starting_resids)\n\n        # save results and restore starting inputs/outputs\n        system._inputs.set_val(self._starting_ins)\n        system._outputs.set_val(self._starting_outs)\n\n        return self._results_tmp\n', '        self._restore_starting_state(system)\n\n        return self._results_tmp\n\n    def _restore_starting_state(self, system):\n        system._residuals.set_val(self._starting_resids)\n        system._inputs.set_val(self._starting_ins)\n        system._outputs.set_val(self._starting_outs)\n'),
+    Twin('twin-seeds-saved-in-one-tuple', REL, "            save_fwd = self._seed_vars['fwd']\n            save_rev = self._seed_vars['rev']\n            save_active = self._active\n", "            current = self._seed_vars\n            saved = (current['fwd'], current['rev'], self._active)\n", nth=1,
+         also=[(REL, '                self._set_seeds(save_fwd, save_rev)\n                self._active = save_active', '                old_fwd, old_rev, old_active = saved\n                self._set_seeds(old_fwd, old_rev)\n                self._active = old_active')]),
     Twin('twin-fd-zero-literal', FD, '        else:\n            results_array[:] = 0.\n\n        # Run', '        else:\n            results_array[:] = 0.0\n\n        # Run'),
     Twin('twin-cs-loop-variable', CS, 'for tup in self._compute_approx_col_iter(system, under_cs=True):\n                yield tup',
          'for item in self._compute_approx_col_iter(system, under_cs=True):\n                yield item'),
